@@ -12,7 +12,7 @@ def configs(ctx):
     shapes = ctx.pick(fam.SHAPES_QUICK, fam.SHAPES_THOROUGH)
     specs = fam.curated(ext_modes=("sinks", "all"))
     if not ctx.quick:
-        specs = specs + fam.small_dag_specs(4) + fam.dag_variant_specs(4)
+        specs = specs + fam.small_dag_specs(5) + fam.dag_variant_specs(4)
     cfgs = [Config(s, h, w, (), batch) for s in specs for (h, w) in shapes]
     cfgs = fam.quick_filter(cfgs) if ctx.quick else cfgs
     return cfgs + fam.gpu_configs(batch) + fam.wide_configs(ctx.quick) + ([] if ctx.quick else fam.gpu_dag_configs(batch))
